@@ -321,6 +321,48 @@ fn expect_request(at: usize, st: &State<impl OpResult, Res, u32>, buf_addr: usiz
     assert!(e == want, "the submission is exactly the operation's request, addressed with its own user_data");
 }
 
+fn drop_case(full: bool, which: u8) {
+    let sq = ring(if full { 0 } else { 2 });
+    let mut st: State<Singleshot, Res, u32> = State::new(new_res(), 4);
+    let buf: *mut u8 = unsafe { st.data.as_ref().tail.resources.get().cast::<Res>().as_ref().unwrap().buf.as_ptr().cast_mut() };
+    let ud = st.user_data();
+    match which {
+        0 => {}
+        1 => ops::force_running(&mut st, 0, 0, Some(k::waker(0))),
+        2 => ops::force_done(&mut st, 3, 0),
+        _ => {
+            ops::force_done(&mut st, 3, 0);
+            // what poll_inner does when it resolves: Complete + resources moved out
+            let r = ops::complete_and_take(&mut st);
+            std::mem::forget(r);
+        }
+    }
+    let tail0 = k::sq_tail();
+    unsafe { OpState::drop(&mut st, &sq) };
+    if which == 1 {
+        assert!(res_drops() == 0, "in flight: nothing released yet");
+        // the kernel can still write the buffer it was given
+        unsafe { buf.write(0xAB) };
+        assert!(ops::state_tag(&st) == ops::Tag::Dropped);
+        if full {
+            assert!(k::sq_tail() == tail0, "no room: no cancel request");
+        } else {
+            assert!(k::sq_tail() == tail0 + 1, "exactly one cancel request");
+            let e = k::sqe_view(k::sqe(0));
+            let mut want = k::ZERO_SQE;
+            want.opcode = libc::IORING_OP_ASYNC_CANCEL as u8;
+            want.addr = ud;
+            want.user_data = 2;
+            want.flags = libc::IOSQE_CQE_SKIP_SUCCESS;
+            assert!(e == want, "cancels exactly this operation");
+        }
+    } else {
+        assert!(k::sq_tail() == tail0, "not in flight: no cancel request");
+        assert!(res_drops() == if which == 3 { 0 } else { 1 }, "resources released exactly once (never twice)");
+    }
+    std::mem::forget(sq);
+}
+
 sm_stubs! {
 
 //@ prop: C03 C02
@@ -601,50 +643,24 @@ fn sm_poll_next_restart() {
 //@ stubs: crate::lock -> try_lock model; Waker -> direct calls; <core::io::CustomOwner as Drop>::drop -> no-op
 fn sm_drop_any_state() {
     let full: bool = kani::any();
-    let sq = ring(if full { 0 } else { 2 });
-    let mut st: State<Singleshot, Res, u32> = State::new(new_res(), 4);
-    let buf: *mut u8 = unsafe { st.data.as_ref().tail.resources.get().cast::<Res>().as_ref().unwrap().buf.as_ptr().cast_mut() };
-    let ud = st.user_data();
     let which: u8 = kani::any();
     kani::assume(which < 4);
-    match which {
-        0 => {}
-        1 => ops::force_running(&mut st, 0, 0, Some(k::waker(0))),
-        2 => ops::force_done(&mut st, 3, 0),
-        _ => {
-            ops::force_done(&mut st, 3, 0);
-            // what poll_inner does when it resolves: Complete + resources moved out
-            let r = ops::complete_and_take(&mut st);
-            std::mem::forget(r);
-        }
-    }
-    let tail0 = k::sq_tail();
-    unsafe { OpState::drop(&mut st, &sq) };
-    if which == 1 {
-        assert!(res_drops() == 0, "in flight: nothing released yet");
-        // the kernel can still write the buffer it was given
-        unsafe { buf.write(0xAB) };
-        assert!(ops::state_tag(&st) == ops::Tag::Dropped);
-        if full {
-            assert!(k::sq_tail() == tail0, "no room: no cancel request");
-        } else {
-            assert!(k::sq_tail() == tail0 + 1, "exactly one cancel request");
-            let e = k::sqe_view(k::sqe(0));
-            let mut want = k::ZERO_SQE;
-            want.opcode = libc::IORING_OP_ASYNC_CANCEL as u8;
-            want.addr = ud;
-            want.user_data = 2;
-            want.flags = libc::IOSQE_CQE_SKIP_SUCCESS;
-            assert!(e == want, "cancels exactly this operation");
-        }
-    } else {
-        assert!(k::sq_tail() == tail0, "not in flight: no cancel request");
-        assert!(res_drops() == if which == 3 { 0 } else { 1 }, "resources released exactly once (never twice)");
-    }
+    drop_case(full, which);
     kani::cover!(which == 1 && !full);
     kani::cover!(which == 1 && full);
     kani::cover!(which == 3);
-    std::mem::forget(sq);
+}
+
+//@ prop: C06 C01
+//@ tier: quick
+//@ what: concrete instance of sm_drop_any_state (a finished-but-unpolled operation dropped: resources released exactly once, no cancel): exists so that a counterexample has a cheap native replay (the symbolic harness's trace generation needs > 18 GB / 10 min)
+//@ bound: status Done; queue with room
+//@ encodes: <io_uring::op::State as OpState>::drop; io_uring::op::drop_state; io_uring::sq::Submissions::cancel
+//@ stubs: crate::lock -> try_lock model; Waker -> direct calls; <core::io::CustomOwner as Drop>::drop -> no-op
+//@ concrete: yes
+fn sm_drop_done_concrete() {
+    drop_case(false, 2);
+    kani::cover!(true);
 }
 
 //@ prop: C06 C01
